@@ -186,8 +186,8 @@ def in_range(term, t):
 def wrap(term, t):
     """reduce a mathematical integer to the C type t (two's complement / modulo)."""
     if z3.is_bv(term):
-        if t.name == "flags":
-            return to_bv(term, t.bits)
+        if t.name == "flags" or (t.kind == "int" and not t.signed and t.bits == term.size()):
+            return to_bv(term, t.bits)      # a flags word stays a bit-vector through unsigned arithmetic
         term = z3.BV2Int(term)
     elif t.name == "flags":
         return to_bv(term, t.bits)
@@ -285,6 +285,7 @@ class State:
         self.pmem = {}
         self.ghost = {}
         self.trace = []
+        self._pcids = None
 
     def clone(self):
         s = State(self.ex)
@@ -300,6 +301,13 @@ class State:
         if z3.is_true(c):
             return
         self.pc.append(c)
+        if self._pcids is not None:
+            self._pcids.add(c.get_id())
+
+    def pcids(self):
+        if self._pcids is None or len(self._pcids) > len(self.pc):
+            self._pcids = set(a.get_id() for a in self.pc)
+        return self._pcids
 
     # memory ---------------------------------------------------------------------------
     def array(self, region, field, t):
@@ -458,6 +466,7 @@ class Exec:
         self.len_facts = []
         self.obligations = []
         self.ob_names = {}
+        self.ob_seen = set()
         self.loop_counter = 0
         self.call_counter = 0
         self.covers = {}
@@ -524,6 +533,14 @@ class Exec:
             self.ob_names.setdefault(base, 0)
             return
         base = name or "%s@%s" % (kind, where)
+        gid = goal.get_id()
+        if gid in st.pcids():
+            return      # already established (asserted earlier on this path and then assumed)
+        key = (gid, tuple(sorted(st.pcids())))
+        if key in self.ob_seen:
+            st.assume(goal)
+            return
+        self.ob_seen.add(key)
         n = self.ob_names.get(base, 0)
         self.ob_names[base] = n + 1
         nm = "%s:%s/%s#%d" % (self.fname, self.func, base, n)
@@ -958,10 +975,13 @@ class Exec:
                 nv = Val(t, self.ptr_add(old.v, z3.IntVal(d)))
             else:
                 r = old.v + d
-                if t.signed:
+                if z3.is_bv(old.v):
+                    nv = Val(t, old.v + z3.BitVecVal(d % (1 << old.v.size()), old.v.size()))
+                elif t.signed and t.bits >= 32:
                     self.oblige(st, "OVERFLOW", in_range(r, t), w)
                     nv = Val(t, z3.simplify(r))
                 else:
+                    # narrower than int: computed in int, converted back (implementation-defined wrap, not UB)
                     nv = Val(t, wrap(r, t))
             self.write_lvalue(st, lv, nv, w)
             return old if n.get("isPostfix") else nv
@@ -1508,6 +1528,8 @@ class Exec:
             probe = self.havoc_loop_state(s0, mod_locals, mod_mem)
             saved = (self.obligations, self.ob_names, self.exits, self.written_log, self.npaths,
                      dict(self.covers))
+            saved_seen = self.ob_seen
+            self.ob_seen = set()
             self.obligations, self.ob_names, self.exits = [], {}, []
             self.written_log = set()
             old_prune, self.prune = self.prune, False
@@ -1523,6 +1545,7 @@ class Exec:
                 log = self.written_log
                 self.prune = old_prune
                 (self.obligations, self.ob_names, self.exits, self.written_log, self.npaths, cov) = saved
+                self.ob_seen = saved_seen
                 self.covers = cov
             new = set()
             for (reg, pref, kind) in log:
